@@ -724,6 +724,6 @@ theorem pinned_null_child_foreign :
 
 /-- non-vacuity: the fixed readers do read valid arrays -/
 example : readAny Fixes.all (.bytes .utf8 none [1, 2, 2] [0, 65]) 0 = .ok (.str .borrowed [65]) := by decide
-example : readAny Fixes.all (.dictionary (.prim .int8 none [0]) (.bytes .utf8 none [0, 1] [65])) 0 = .ok (.str .transient [65]) := by decide
+example : readAny Fixes.all (.dictionary (.prim .int8 none [0]) (.bytes .utf8 none [0, 1] [65])) 0 = .ok (.str .borrowed [65]) := by decide
 
 end SaModel.Props.C17
